@@ -26,6 +26,10 @@ class ContractError(Exception):
     pass
 
 
+class DeadPath(Exception):
+    """The current statement certainly raised; no fall-through state."""
+
+
 _ctr = itertools.count()
 
 
@@ -315,12 +319,41 @@ class Engine:
     def hkey(key):
         return tuple(x.key if isinstance(x, T.Ty) else x for x in key)
 
-    def field_type(self, name):
+    def fid(self, name, cls=None):
+        """Field identity: the plain name, or name@DeclaringClass when classes declare the name with different types."""
+        if '@' in name:
+            return name
         if self.cur is not None and name in self.cur.fields:
-            return self.ptype(self.cur.fields[name])
-        if name not in self.prop.fields:
+            return name
+        var = self.prop.field_variants.get(name)
+        if not var:
             raise Unsupported('field %r has no declared type' % name)
-        return self.ptype(self.prop.fields[name])
+        if len({str(t) for t in var.values()}) == 1:
+            return name
+        if cls is not None:
+            for c in self.class_chain(cls):
+                if c in var:
+                    return '%s@%s' % (name, c)
+        raise Unsupported('field %r is declared with several types; receiver class %r does not determine which' % (name, cls))
+
+    def fids(self, name):
+        if '@' in name:
+            return [name]
+        var = self.prop.field_variants.get(name)
+        if not var or len({str(t) for t in var.values()}) == 1:
+            return [name]
+        return ['%s@%s' % (name, c) for c in var]
+
+    def field_type(self, fid):
+        name, _, decl = fid.partition('@')
+        if self.cur is not None and name in self.cur.fields and not decl:
+            return self.ptype(self.cur.fields[name])
+        var = self.prop.field_variants.get(name)
+        if not var:
+            raise Unsupported('field %r has no declared type' % name)
+        if decl:
+            return self.ptype(var[decl])
+        return self.ptype(next(iter(var.values())))
 
     def ptype(self, s):
         if isinstance(s, T.Ty):
@@ -341,8 +374,9 @@ class Engine:
         st = self.storage(t)
         return ('elem', st.key, st)
 
-    def k_dhas(self, kt):
-        return ('dhas', kt.key, kt)
+    def k_dhas(self, kt, vt):
+        vt = self.storage(vt)
+        return ('dhas', kt.key + '/' + vt.key, kt, vt)
 
     def k_dval(self, kt, vt):
         vt = self.storage(vt)
